@@ -10,6 +10,7 @@ package main
 
 import (
 	"fmt"
+	"strings"
 
 	"golang.org/x/crypto/openpgp"
 	"pault.ag/go/debian/deb"
@@ -26,6 +27,7 @@ type c16Attempt struct {
 	ctlDiff         string
 	dataDiffS       string
 	listErr         error
+	seq             []string
 	task            *rt.Task
 }
 
@@ -70,7 +72,7 @@ func runC16(r *rt.Run, tier string) {
 		for _, m := range targets {
 			nBytes += len(m.Data)
 		}
-		decoyNames := []string{"control.tar", "control.tar.gz", "control.tar.zst", "data.tar", "data.tar.gz"}
+		decoyNames := []string{"control.tar", "control.tar.gz", "control.tar.zst", "data.tar", "data.tar.gz", "control.sig", "control.md5", "control.", "data.img", "data.cpio.gz"}
 		nDecoy := len(decoyNames) * 2
 		total := nBytes + nDecoy + 2 + 2
 		fp := faultIndex(r, total, func() int {
@@ -241,6 +243,31 @@ func runC16(r *rt.Run, tier string) {
 				list()
 				r.Probe("payload-read-after-verification")
 			}
+			if a.verErr == nil {
+				// multi-step on the SAME loaded package: earlier answers must not
+				// colour later ones (e.g. a per-object cache keyed by role only)
+				again, errAgain := d.CheckDebsig(keyring, askRole)
+				if errAgain != nil || !sameEntity(again, a.signer) {
+					a.seq = append(a.seq, fmt.Sprintf("second CheckDebsig with the same keyring and role: err=%v", errAgain))
+				}
+				if s, err := d.CheckDebsig(openpgp.EntityList{pgpKeys[3]}, askRole); err == nil {
+					a.seq = append(a.seq, fmt.Sprintf("after a successful check, CheckDebsig with an UNRELATED keyring succeeded (signer reported: %v)", s != nil))
+				}
+				if _, err := d.CheckDebsig(openpgp.EntityList{}, askRole); err == nil {
+					a.seq = append(a.seq, "after a successful check, CheckDebsig with an EMPTY keyring succeeded")
+				}
+				if _, err := d.CheckDebsig(nil, askRole); err == nil {
+					a.seq = append(a.seq, "after a successful check, CheckDebsig with a nil keyring succeeded")
+				}
+				for _, ro := range c16Roles {
+					if ro != role {
+						if _, err := d.CheckDebsig(keyring, ro); err == nil {
+							a.seq = append(a.seq, "after a successful check, CheckDebsig for the absent role "+ro+" succeeded")
+						}
+					}
+				}
+				r.Probe("repeated-checks-on-one-package")
+			}
 			a.ctlDiff = controlDiff(&d.Control, &p.Ctl.Model)
 			if a.listErr == nil {
 				a.dataDiffS = dataDiff(files, p.Data.Files, false)
@@ -271,6 +298,9 @@ func runC16(r *rt.Run, tier string) {
 				r.Violate("C16/verified-but-payload-differs", key+map[bool]string{true: "/verify-first", false: "/list-first"}[verifyFirst], "verification succeeded but the exposed payload is not the signed payload: %s", a.dataDiffS)
 			}
 		}
+		for _, s := range a.seq {
+			r.Violate("C16/answer-depends-on-earlier-check", strings.SplitN(s, ":", 2)[0], "%s", s)
+		}
 		if mustFail && ok {
 			r.Violate("C16/accepted-tampered-package", key, "load and verification both succeeded (member order #%d of %d) for fault %s", li+1, nloads, fault)
 		}
@@ -296,5 +326,5 @@ func init() {
 		},
 		Assumptions: []string{"x/crypto/openpgp both makes and verifies the signatures: a bug common to both directions is invisible", "test keys are committed fixtures (key generation is not reproducible in Go); signing with a fixed signature time is byte-deterministic"},
 	})
-	propProbes["C16"] = []string{"verification-succeeded", "payload-read-after-verification", "decoy-with-identical-name"}
+	propProbes["C16"] = []string{"repeated-checks-on-one-package", "verification-succeeded", "payload-read-after-verification", "decoy-with-identical-name"}
 }
